@@ -95,7 +95,14 @@ impl Xot {
             return Ok(());
         }
         self.remove_consolidate_text_nodes(self.previous_sibling(child), self.next_sibling(child));
-        if self.add_consolidate_text_nodes(child, self.last_child(parent), None) {
+        // merging the old neighbours of the child can have made it the last
+        // child (adjacent text nodes from a time without consolidation): it
+        // is then its own previous sibling that it gets to stand after
+        let last_child = match self.last_child(parent) {
+            Some(last_child) if last_child == child => self.previous_sibling(child),
+            last_child => last_child,
+        };
+        if self.add_consolidate_text_nodes(child, last_child, None) {
             return Ok(());
         }
         parent.get().checked_append(child.get(), self.arena_mut())?;
@@ -429,11 +436,16 @@ impl Xot {
             self.previous_sibling(new_sibling),
             self.next_sibling(new_sibling),
         );
-        if self.add_consolidate_text_nodes(
-            new_sibling,
-            self.previous_sibling(reference_node),
-            Some(reference_node),
-        ) {
+        // merging the old neighbours of the node can have brought it right
+        // before the reference node (adjacent text nodes from a time without
+        // consolidation): it is then its own previous sibling that counts
+        let previous_node = match self.previous_sibling(reference_node) {
+            Some(previous_node) if previous_node == new_sibling => {
+                self.previous_sibling(new_sibling)
+            }
+            previous_node => previous_node,
+        };
+        if self.add_consolidate_text_nodes(new_sibling, previous_node, Some(reference_node)) {
             return Ok(());
         }
         reference_node
